@@ -56,7 +56,7 @@ def run(rep, model, tier, seed, broken=()):
                                 "argument form, 0..4 values, options with/without default, documented or not, at any "
                                 "nesting position) + a fixed list of direct shapes; projection = data entries rendered "
                                 "with doc text blanked; non-trivial = at least one data entry; distinct by file bytes")
-        cases = [c for c in pipe.corpus_cases("C10") if c["_name"].startswith("s_")] + direct_cases(rng)
+        cases = pipe.corpus_cases("C10") + direct_cases(rng)   # scenarios and witnesses of repaired findings
         for i in range(n):
             mod = gen.gen_module(rng, budget=rng.choice([4, 8, 16, 30]),
                                  weights=dict(set=6, option=5, generic=1, add_test=0.3, klass=0.7, test=0.7,
